@@ -91,10 +91,16 @@ class Ctx:
         """False once MAX_PER_KEY findings for that key were recorded (callers may skip building scripts)."""
         return len(self.findings.get(key, ())) < MAX_PER_KEY
 
-    def fail(self, key: str, what: str, script, data: dict | None = None) -> None:
-        """Record a violation; `script` may be a string or a zero-argument callable producing it."""
-        lst = self.findings.setdefault(key, [])
-        if len(lst) >= MAX_PER_KEY:
+    def n_findings(self) -> int:
+        return sum(len(v) for v in self.findings.values())
+
+    def fail(self, key: str, what: str, script, data: dict | None = None, group=None, cap: int = MAX_PER_KEY) -> None:
+        """Record a violation; `script` may be a string or a zero-argument callable producing it.
+
+        `group` (optional) opens a separate quota of `cap` findings for the same key, so that one family of
+        violations cannot crowd out another family that violates the same clause."""
+        lst = self.findings.setdefault(key if group is None else (key, group), [])
+        if len(lst) >= cap:
             self.suppressed[key] = self.suppressed.get(key, 0) + 1
             return
         if callable(script):
